@@ -184,6 +184,9 @@ def _int_cells(draw, field, fmt, n):
     cells += [str(v) for v in picked]
     cells += draw(st.lists(st.sampled_from(["abc", "1.5", "1,5", "0x10", "12a", "1e3", "--1", "1-", "-", "٣", "1 2",
                                            "+5", "007", "1_0", " 7", "-0", "NaN"]), min_size=2, max_size=3))
+    # an integer the way spreadsheets and floating point numbers spell it: not an integer literal
+    for v in picked[:2]:
+        cells.append(str(v) + draw(st.sampled_from([".0", ".00", ".", ",0", ".0 ", "e0", ".0e0"])))
     # digits in groups of three: a spelling of Decimal cells, not of integers - whichever separator is used
     big = [v for v in picked if abs(v) >= 1000][:2] + [1000, 1234567]
     for v in big[:3]:
@@ -574,7 +577,9 @@ def regex_nodes(draw, depth=0):
     kind = draw(st.sampled_from(["lit", "lit", "lit", "dot", "class", "group", "alt"] if depth < 1 else
                                 ["lit", "lit", "dot", "class"]))
     if kind == "lit":
-        ch = draw(st.sampled_from(_RE_LITERALS))
+        # now and then a rule that spans lines or carries a '#': both are ordinary characters of an expression
+        ch = draw(st.one_of(st.sampled_from(_RE_LITERALS), st.sampled_from(_RE_LITERALS), st.sampled_from(_RE_LITERALS),
+                            st.sampled_from("\n#\t")))
         node, text = {"t": "lit", "c": ch}, ch
     elif kind == "dot":
         node, text = {"t": "dot"}, "."
